@@ -275,6 +275,21 @@ def oracle_c01(solver, ok):
             probs.append(f'solved, yet demanded lines have no value: {missing[:5]}')
         if req_missing:
             probs.append(f'solved, yet required lines of loaded forms are absent: {req_missing[:5]}')
+        if not probs:
+            # "demanded" recomputed independently of the solver's own bookkeeping: whatever a stored line asks its
+            # accessors for when it is evaluated again (recorded below the FormAccessor, so `v.get(k)` and `k in v`
+            # count like `v[k]`) is demanded, and must be there (seed C01g: the "not there yet" signals became
+            # KeyErrors, `get`/`in` swallowed them, and the return was "solved" without the demanded line or input)
+            import solver_oracles as so
+            for n in list(solver._v.values):
+                if n not in solver._field_map:
+                    continue
+                vlog, ilog, exc = so.reads_of(solver, n)
+                gone = [m for m in vlog if m not in solver._v.values]
+                gone_i = [x for x in ilog if x not in solver._i]
+                if gone or gone_i:
+                    probs.append(f'solved, yet line {n} demands {(gone + gone_i)[:4]} which the solution / the inputs do not hold')
+                    break
     else:
         if not (unimpl or ui or uf):
             probs.append('failed, yet all three diagnostics are empty')
@@ -549,6 +564,19 @@ def run_C03(ctx):
     broken = check_obligations(ctx, PROPS['C03']['theorems'])
     dis, reals, runs = tie_solver(ctx, broken)
     checked, bad, nvals = 0, [], 0
+    # returns whose COMPUTED text lines begin or end with white space (a blank last name makes `full_names` end in a
+    # blank, a blank income type does the same for Schedule 1 `8z_type`): the returned solution must carry the value
+    # the definition yields, not a tidied one (seed C03g: `to_config` strips the text it writes)
+    import scenarios as sc
+    runs = list(runs)
+    for k in range(ctx.n(6, 30)):
+        year = (2021, 2022, 2023)[k % 3]
+        sd = f'{ctx.seed}/c03-blank-text/{k}'
+        pol, kind = sc.gen_policy(sd, year)
+        pol.fixed.update({'last_name': '', 'other_income_type': '', 'middle_initial': ' ' if k % 2 else ''})
+        r = sc.run(year, sc.request_for(sd, year, kind), pol)
+        r['kind'], r['scenario_seed'] = kind, sd
+        runs.append(r)
     for c, real, solver, log, prompts in reals:
         if real[0] in ('verdict solved', 'verdict failed'):
             checked += 1
@@ -653,6 +681,19 @@ def run_C05(ctx):
             r = sc.run(year, forms, pol)
             r['kind'], r['scenario_seed'] = kind, sd
             odd.append(r)
+    # plain wage returns (one W-2, no dividends or interest, taxable income in the tax-table range): the bases of the
+    # "after another return in the same process" history below, where line 16 is ONE look-up
+    hist = []
+    for year in (2021, 2022, 2023):
+        for st, wage in (('Single', '61234.00'), ('HeadOfHousehold', '83417.50')):
+            sd = f'{ctx.seed}/c05/history/{year}/{st}'
+            pol, kind = sc.gen_policy(sd, year, kind='plain')
+            pol.p_yes = 0.0
+            pol.fixed.update({'1040.filing_status': st, '1040.number_w-2': '1', '1040.number_1099-div': '0', '1040.number_1099-int': '0',
+                              '1040.number_1099-r': '0', '1040.number_1099-g': '0', '1040.number_dependents': '0', 'w-2:0.box_1': wage})
+            r = sc.run(year, ['1040'], pol)
+            r['kind'], r['scenario_seed'], r['history'] = 'plain', sd, True
+            hist.append(r)
     nreal = 0
     # scenarios on which the solver model (which can only read inputs and lines) and the real code disagree are where a
     # line may be reading something else (loaded forms, attempt history, module state): many more orders and splits there
@@ -660,7 +701,7 @@ def run_C05(ctx):
     for r in suspects:
         r['suspect'] = True
     rest = [r for r in runs[:ctx.n(25, 300)] if not r.get('suspect')]
-    for r in odd + suspects + rest:
+    for r in hist + odd + suspects + rest:
         if r['exception'] is not None and not isinstance(r['exception'], (NotImplementedError, TypeError, AssertionError)):
             continue
         rng = random.Random(f'{ctx.seed}/c05-real/{r["scenario_seed"]}')
@@ -684,6 +725,35 @@ def run_C05(ctx):
             for j in range(6):
                 hj = {k: inputs[k] for k in keys if random.Random(f'{ctx.seed}/split/{j}/{k}').random() < 0.5}
                 tests.append(('file/prompt split', lambda hj=hj: (split_policy.refused.clear(), so.rerun_with(r, file_inputs=hj, policy=split_policy))[1]))
+        if (r.get('history') or checked < ctx.n(8, 40)) and base_run['exception'] is None and '1040.15' in base_run['solver']._v.values \
+                and '1040.filing_status' in inputs and 'w-2:0.box_1' in inputs:
+            # history: the same request after ANOTHER return was solved in the same process.  The other return has a
+            # different filing status and wages shifted so that its taxable income falls where this one's does -- the
+            # place where something remembered from the previous solve (seed C05g: a last-row memo of the tax table
+            # that ignores the status column) would be reused.
+            def after_another(r=r, inputs=inputs, base_run=base_run):
+                import scenarios as sc
+                t15 = base_run['solver']._v.values['1040.15']
+                cur = inputs['1040.filing_status']
+                for other in ('HeadOfHousehold', 'Single', 'MarriedFilingJointly'):
+                    if other == cur:
+                        continue
+                    pol2, _ = sc.gen_policy(r['scenario_seed'], r['year'], kind=r.get('kind'))
+                    in2 = dict(inputs, **{'1040.filing_status': other})
+                    r2 = so.rerun_with(r, file_inputs=in2, policy=pol2)
+                    if r2['exception'] is not None or '1040.15' not in r2['solver']._v.values:
+                        continue
+                    try:
+                        w = float(inputs['w-2:0.box_1']) + (t15 - r2['solver']._v.values['1040.15'])
+                    except ValueError:
+                        continue
+                    if w < 0:
+                        continue
+                    pol3, _ = sc.gen_policy(r['scenario_seed'], r['year'], kind=r.get('kind'))
+                    so.rerun_with(r, file_inputs=dict(in2, **{'w-2:0.box_1': '%.2f' % w}), policy=pol3)
+                    break
+                return so.rerun_with(r, file_inputs=inputs)
+            tests.append(('after another return in the same process', after_another))
         trace = so.ReadTrace()
         with trace.install():
             so.rerun_with(r, file_inputs=inputs)
@@ -768,7 +838,13 @@ def run_C19(ctx):
             return str(v)
     for k in range(ctx.n(400, 4000)):
         m = rng.choice([None, 0, 1, 5, 9, 17])
-        s = ''.join(rng.choice('ab()\\ 9') for _ in range(rng.randrange(0, 25)))
+        s = ''.join(rng.choice('ab()\\ 9-.0') for _ in range(rng.randrange(0, 25)))
+        if k % 3 == 1:
+            # a run of one sign / padding character around a core that is just at the limit: a guard that measures
+            # a stripped or trimmed text lets the whole text through (seed C19g: len(value.lstrip('-')))
+            pad = rng.choice('-+ 0.') * rng.randrange(1, 6)
+            core = ''.join(rng.choice('ab9') for _ in range(rng.choice([(m or 3) - 1, m or 3, (m or 3) + 1]) if (m or 3) > 0 else 0))
+            s = rng.choice([pad + core, core + pad, pad + core + pad])
         checked += 1
         try:
             got = pdf_fields.TextPDFField('t', 'f', max_length=m).value(s, F())
@@ -896,6 +972,57 @@ def oracle_c11():
             probs.append((f'{type(inp).__name__}:absent', f'{type(inp).__name__}: absent input silently defaults to {v!r}'))
         except hi.MissingInput:
             pass
+    # histories on ONE store object: what a read returns depends on the CURRENT text and specification only.  The same
+    # real code on a FRESH store holding the current text is the reference (real against real: a difference is a
+    # stale value that was never validated against what is supplied now -- seed C11g, a memo of parsed values).
+    def outcome(store, key):
+        try:
+            v = store[key]
+            return ('ok', type(v).__name__, repr(v))
+        except (hi.MissingInput, hi.InvalidInput, hi.MissingInputSpecification) as e:
+            return (type(e).__name__,)
+        except Exception as e:  # noqa: BLE001
+            return ('raised', type(e).__name__)
+
+    def fresh(inp2, text):
+        cfg2 = configparser.ConfigParser(interpolation=None)
+        if text is not None:
+            cfg2.read_dict({'f': {inp2.base_name(): text}})
+        return outcome(hi.InputStore(cfg2, {inp2.name(): inp2}), inp2.name())
+    good = {'s': ['x', 'y z'], 'b': ['yes', 'no'], 'i': ['3', '41'], 'f': ['1.5', '20'], 'e': ['Single', 'MarriedFilingJointly'],
+            'ee': ['taxpayer', 'spouse'], 'r': ['011000015', '021000021'], 'a': ['ACCT-1', 'B2'], 'n': ['123-45-6789', '987654321']}
+    for base, inp, ty in specs:
+        others = [t for t in texts if t not in good[base]][:40] + good[base]
+        for a in good[base]:
+            for b in others:
+                for how in ('delete', 'config-set', 'setitem', 'respec'):
+                    cfg = configparser.ConfigParser(interpolation=None)
+                    store = hi.InputStore(cfg, {inp.name(): inp})
+                    try:
+                        store[inp.name()] = a
+                        outcome(store, inp.name())                  # first read
+                        if how == 'delete':
+                            del store[inp.name()]
+                            want, hist = fresh(inp, None), f'set {a!r}; read; del; read'
+                        elif how == 'config-set':
+                            cfg.set('f', base, b)
+                            want, hist = fresh(inp, b), f'set {a!r}; read; config.set {b!r}; read'
+                        elif how == 'setitem':
+                            store[inp.name()] = b
+                            want, hist = fresh(inp, b), f'set {a!r}; read; set {b!r}; read'
+                        else:
+                            k2 = specs[(specs.index((base, inp, ty)) + 1 + len(b)) % len(specs)][1]
+                            inp2 = k2.__class__.__new__(k2.__class__)
+                            inp2.__dict__.update(k2.__dict__)
+                            inp2._name = inp._name
+                            store.update_input_spec({inp.name(): inp2})
+                            want, hist = fresh(inp2, a), f'set {a!r}; read as {type(inp).__name__}; update_input_spec({type(inp2).__name__}); read'
+                    except Exception:  # noqa: BLE001  (a text the configuration itself refuses)
+                        continue
+                    checked += 1
+                    got = outcome(store, inp.name())
+                    if got != want:
+                        probs.append((f'history:{type(inp).__name__}:{how}', f'{type(inp).__name__}: after [{hist}] the store returns {got}, a fresh store holding the current text returns {want}'))
     return probs, checked
 
 
@@ -992,7 +1119,19 @@ def run_C12(ctx):
     broken = check_obligations(ctx, PROPS['C12']['theorems'])
     dis = run_stream(ctx, 'fields_stream', 'inp', ctx.n(12000, 150000), 'fields',
                      'Field.value / to_string / from_string with stub definitions returning every kind of Python value (bool for int line, int for float line, subclasses, None, blanks, other enums): real classes vs Lean model')
-    runs = real_runs(ctx, ctx.n(45, 600))
+    runs = list(real_runs(ctx, ctx.n(45, 600)))
+    # the same kinds of returns with money answers that carry a fraction of a cent: rounding must happen in the
+    # LINE (also in the mirror lines of input-only forms), before any dependent reads the amount (seed C12g)
+    import scenarios as sc
+    for k in range(ctx.n(18, 120)):
+        year = (2021, 2022, 2023)[k % 3]
+        sd = f'{ctx.seed}/subcent/{k}'
+        pol, kind = sc.gen_policy(sd, year)
+        pol.subcent = True
+        r = sc.run(year, sc.request_for(sd, year, kind), pol)
+        r['kind'] = kind
+        r['scenario_seed'] = sd
+        runs.append(r)
     probs, checked = oracle_c12(runs)
     ctx.statement['c12-typed'] = {'checked': checked, 'violations': len(probs),
                                   'distinct_nontrivial': sum(1 for r in runs if r['exception'] is None),
@@ -1838,6 +1977,45 @@ def run_C08(ctx):
         ctx.report('obligation:' + broken[0], f'proof obligation(s) no longer check: {broken[:5]}', {'broken': broken}, found=False)
 
 
+def oracle_c09_limits(ctx):
+    import scenarios as sc
+    import c07_oracle
+    table = json.load(open(os.path.join(VERIF, 'tools', 'c08_statutory.json')))
+    entries = table['amounts'] if isinstance(table, dict) and 'amounts' in table else table
+    if isinstance(entries, dict):
+        entries = next(v for v in entries.values() if isinstance(v, list))
+    ent = next(e for e in entries if e.get('id') == 'form1116_foreign_tax_limit')
+    probs, checked, nontrivial = [], 0, 0
+    for year in (2021, 2022, 2023):
+        _, members = c07_oracle.load_year(year)
+        for st, member in members.items():
+            limit = float(ent['values'][str(year)][st])
+            outcome = {}
+            for label, tax in (('below', limit - 25.0), ('above', limit + 25.0), ('far-above', 2 * limit - 10.0)):
+                sd = f'{ctx.seed}/c09-limits/{year}/{st}'
+                pol, kind = sc.gen_policy(sd, year, kind=None)
+                pol.p_yes = 0.0
+                pol.fixed.update({'1040.filing_status': member.name, '1040.number_1099-int': '1', '1040.number_1099-div': '0',
+                                  '1099-int:0.box_6': '%.2f' % tax, 'other_foreign_gross_income': 'no',
+                                  '1040.number_dependents': '0', '1040.number_w-2': '1'})
+                r = sc.run(year, ['1040'], pol)
+                r['kind'], r['scenario_seed'] = 'c09-limit', sd
+                outcome[label] = r
+                checked += 1
+            ok_below = outcome['below']['exception'] is None and outcome['below']['ok']
+            nontrivial += 1 if ok_below else 0
+            for label in ('above', 'far-above'):
+                r = outcome[label]
+                if label == 'far-above' and st == 'mfj':
+                    pass
+                if r['exception'] is None and r['ok'] and ok_below:
+                    tax = r['solver']._i['1099-int:0.box_6'] if '1099-int:0.box_6' in r['solver']._i else None
+                    probs.append((f'limit:{year}:form1116:{st}', f'{year} {member.name}: foreign tax {tax} is above the Form 1116 election limit {limit:.0f} of this status (IRC 904(j)(2)(B)), yet the return is reported solved',
+                                  scenario_replay(r)))
+                    break
+    return probs, checked, nontrivial
+
+
 def run_C09(ctx):
     import c09_oracle
     sys.path.insert(0, os.path.join(VERIF, 'tools'))
@@ -1881,6 +2059,17 @@ def run_C09(ctx):
         reported += 1
     for (y, g), v in by_gate.items():
         ctx.report(v['key'], v['what'], {'kind': 'scenario', 'case': v['replay']})
+        reported += 1
+    # gates that compare an AMOUNT with a statutory limit (round 7, seed C09g): the limit itself decides whether the
+    # unsupported situation is recognised, so it is taken from the citation table of C08 (tools/c08_statutory.json),
+    # not from the code: foreign taxes above the Form 1116 election limit of the filer's status must not solve.
+    lim_probs, lim_checked, lim_nontrivial = oracle_c09_limits(ctx)
+    ctx.statement['c09-statutory-limits'] = {
+        'checked': lim_checked, 'distinct_nontrivial': lim_nontrivial, 'violations': len(lim_probs),
+        'rule': 'per year x filing status: REAL solves of a wage return with one 1099-INT whose foreign tax (box 6) is just above / just below the Form 1116 limit of the citation table; above must not be reported solved; non-trivial = the just-below twin solved',
+        'samples': [{'limits': 'form1116_foreign_tax_limit of tools/c08_statutory.json'}]}
+    for key, what, rep in lim_probs:
+        ctx.report(key, what, {'kind': 'scenario', 'case': rep})
         reported += 1
     for y, c in cmp_.items():
         for kind in ('gates_not_in_survey', 'gates_not_declared', 'unclassified', 'polarity_mismatch'):
@@ -2060,6 +2249,23 @@ def run_C16(ctx):
             r = sc.run(year, ['1040', 'nc_d-400'], pol)
             r['kind'], r['scenario_seed'], r['policy'] = 'nc-withholding', sd, pol
             runs.append(r)
+    # investors: small wages under large qualified dividends / capital-gain distributions, so that the Qualified
+    # Dividends and Capital Gain Tax Worksheet runs with its `min(...)` clamps ACTIVE (dividends exceed taxable income);
+    # a dropped clamp taxes a phantom amount that shrinks as wages rise (seed C16g: total tax falls when wages go up)
+    for year in (2021, 2022, 2023):
+        for j, (st, wage, div) in enumerate([('Single', '0', '60000.00'), ('Single', '12000.00', '60000.00'),
+                                             ('MarriedFilingJointly', '4000.00', '95000.00'), ('HeadOfHousehold', '9000.00', '41000.00')]):
+            sd = f'{ctx.seed}/c16/investor/{year}/{j}'
+            pol, kind = sc.gen_policy(sd, year, kind='plain')
+            pol.p_yes, pol.scale = 0.0, 0.0         # no other income: taxable income stays below the dividends
+            pol.fixed.update({'1040.filing_status': st, '1040.number_w-2': '1', 'w-2:0.box_1': wage, 'w-2:0.box_2': '0',
+                              '1040.number_1099-div': '1', '1099-div:0.box_1a': div, '1099-div:0.box_1b': div,
+                              '1099-div:0.box_2a': ['0', '2500.00'][j % 2], '1099-div:0.box_5': '0', '1099-div:0.box_7': '0',
+                              '1040.number_1099-int': '0', '1040.number_1099-r': '0', '1040.number_1099-g': '0',
+                              '1040.number_1098': '0', '1040.number_dependents': '0'})
+            r = sc.run(year, ['1040'], pol)
+            r['kind'], r['scenario_seed'], r['policy'] = 'investor', sd, pol
+            runs.append(r)
     bad, pairs, solved = [], 0, 0
     for i, r in enumerate(runs):
         if r['exception'] is None and r['ok']:
@@ -2091,8 +2297,10 @@ PROPS = {
         'HabuVerif.C04.values_are_demanded', 'HabuVerif.C04.input_only_adds_no_line'],
         assumptions=['line definitions are deterministic strategy trees; Field.form(name) is used only on forms that are loaded (see known findings)']),
     'C05': dict(run=run_C05, theorems=[
-        'HabuVerif.C05.schedule_independent', 'HabuVerif.C05.no_error_outcome_in_final'],
-        assumptions=['prompt is absent or answers every question as a function of the input name (partial refusal is order-dependent by nature and excluded, as the property says)',
+        'HabuVerif.C05.schedule_independent', 'HabuVerif.C05.no_error_outcome_in_final',
+        'HabuVerif.C05.line_outcome_depends_only_on_read_names'],
+        assumptions=['frame (Proofs/Frame.lean): for the regenerated catalogue, the outcome of any line is a function of the stored values and input answers its syntactic read sets describe -- nothing else in the stores can influence it',
+                     'prompt is absent or answers every question as a function of the input name (partial refusal is order-dependent by nature and excluded, as the property says)',
                      'agreement of the abort KIND across schedules is not proved (partial); INI layout independence is proved for written files (Ini lemmas) and tested for hand-laid-out files']),
     'C06': dict(run=run_C06, theorems=['HabuVerif.C06.' + t for t in [
         'history_wf', 'step_releases_one_met_pair', 'step_done_keeps_everything', 'register_adds_one_pair',
@@ -2174,9 +2382,10 @@ PROPS = {
         'shapes_2021', 'shapes_2022', 'shapes_2023', 'withholding_total', 'renumbering_keeps_withholding',
         'net_is_payments_minus_tax', 'solved_net_is_payments_minus_tax', 'withholding_one_for_one',
         'float_sum_line_total', 'float_sum_line_renumbering', 'float_sum_lines_2021', 'float_sum_lines_2022', 'float_sum_lines_2023',
+        'reads_only_frame', 'reads_only_2021', 'reads_only_2022', 'reads_only_2023', 'total_tax_ignores_everything_but_22_23_2023',
         'L25b.line25b_shape_2021', 'L25b.line25b_shape_2022', 'L25b.line25b_shape_2023', 'L25b.eval_25b', 'L25b.line25b_total',
         'L25b.line25b_renumbering', 'L25b.line25b_one_for_one']],
-        assumptions=['PARTIAL: proved in exact cents for Form 1040 lines 25a and 25b (tax withheld on every W-2 / 1099-R / 1099-DIV / 1099-INT / 1099-G copy: total, renumbering, one cent for one cent) and for the float(sum(copies)) lines 1040.2a, 8959.1, 8959.19 (sum over the copies: a function of the multiset of amounts, at most 64 copies of at most 1e9 dollars) and for refund-minus-owed = 25a+25b+25c+26+32-24 in every returned state (amounts up to 1e10 dollars); that lines 24, 25c, 26, 32 do not depend on the withholding boxes, the renumbering invariance of the other per-payer totals, and the monotonicity of total tax in wages and deductions are explored by the metamorphic oracle on real returns, not proved']),
+        assumptions=['PARTIAL: proved in exact cents for Form 1040 lines 25a and 25b (tax withheld on every W-2 / 1099-R / 1099-DIV / 1099-INT / 1099-G copy: total, renumbering, one cent for one cent) and for the float(sum(copies)) lines 1040.2a, 8959.1, 8959.19 (sum over the copies: a function of the multiset of amounts, at most 64 copies of at most 1e9 dollars) and for refund-minus-owed = 25a+25b+25c+26+32-24 in every returned state (amounts up to 1e10 dollars); ONE-STEP independence is proved (reads_only_frame over the regenerated read sets, re-checked by the kernel each run: lines 24, 25d, 26, 32, 33 of each year are functions of the literal names listed in reads_only_<year> and of nothing else in the stores, in particular of no withholding box); that lines 24, 25c, 26, 32 do not depend on the withholding boxes THROUGH the lines they read, the renumbering invariance of the other per-payer totals, and the monotonicity of total tax in wages and deductions are explored by the metamorphic oracle on real returns, not proved']),
     'C17': dict(run=run_C17, theorems=['HabuVerif.C17.' + t for t in [
         'names_unique', 'threshold_lookup_total', 'all_threshold_lookups_total', 'names_clean',
         'every_class_instantiates', 'declared_year_is_directory_year', 'metadata_present']],
